@@ -117,9 +117,13 @@ const (
 	jpResponse = "$.response.body"
 )
 
+// collectorSite: the call site filters the exclusions by direction (the HAR
+// collector: suite collector through generateHAR, suite export through Execute)
+func collectorSite(k *Case) bool { return k.Suite == "collector" || k.Suite == "export" }
+
 func denotation(k *Case, doc *Node, e string) *exclSpec {
 	sp := &exclSpec{raw: e, keptUnder: map[int]string{}}
-	if k.Suite == "collector" {
+	if collectorSite(k) {
 		mine := jpResponse
 		if k.Request {
 			mine = jpRequest
@@ -157,7 +161,7 @@ func denotation(k *Case, doc *Node, e string) *exclSpec {
 func ambiguityFlags(k *Case, doc *Node) []bool {
 	flags := []bool{}
 	for _, e := range k.Excl {
-		if k.Suite == "collector" {
+		if collectorSite(k) {
 			mine := jpResponse
 			if k.Request {
 				mine = jpRequest
